@@ -245,6 +245,118 @@ def _install():
     wrap_group("aggregate")
     wrap_group("window")
 
+    # ------------------------------------------------------------------ vector indexing / item assignment
+    NONEI = 99
+
+    def enc_key(key, n):
+        """the key forms Trace_Vector knows; None when the key is something else (never guessed)"""
+        if isinstance(key, bool):
+            return None
+        if isinstance(key, int):
+            return ["int", key] if abs(key) < 10000 else None
+        if isinstance(key, slice):
+            parts = []
+            for c in (key.start, key.stop, key.step):
+                if c is None:
+                    parts.append(NONEI)
+                elif isinstance(c, int) and not isinstance(c, bool) and abs(c) < 90:
+                    parts.append(c)
+                else:
+                    return None
+            return ["slice"] + parts
+        if type(key) in (list, tuple) or (isinstance(key, Vector) and not isinstance(key, Table)):
+            items = list(key)
+            if items and all(isinstance(x, bool) for x in items):
+                return ["mask", items]
+            if items and all(isinstance(x, int) and not isinstance(x, bool) and abs(x) < 10000 for x in items):
+                return ["list", items]
+        return None
+
+    def plain_vector(v):
+        return isinstance(v, Vector) and not isinstance(v, Table) and type(v).__name__ != "Row"
+
+    def temporal(vals):
+        import datetime as _dt
+        return any(isinstance(x, _dt.date) for x in vals)
+
+    orig_get = Vector.__getitem__
+
+    def getitem(self, key):
+        global _depth
+        if _depth or not plain_vector(self):
+            return orig_get(self, key)
+        k = None
+        try:
+            before = list(self._underlying)
+            k = enc_key(key, len(before))
+        except Exception:      # noqa: BLE001
+            k = None
+        _depth += 1
+        try:
+            res, err = orig_get(self, key), None
+        except Exception as ex:      # noqa: BLE001
+            res, err = None, ex
+        finally:
+            _depth -= 1
+        if k is not None and len(before) <= 60:
+            try:
+                if err is None:
+                    out = [res] if k[0] == "int" else list(res)
+                else:
+                    out = []
+                (a_b, a_o), _ = _abs_equal_many([[before], [out]])
+                _emit({"op": "rgetitem", "n": len(before), "key": k, "vals": a_b[0], "res": a_o[0], "ok": err is None,
+                       "errclass": type(err).__name__ if err else ""})
+            except TypeError:
+                _emit({"op": "rgetitem", "skipped": "unhashable values"})
+        if err is not None:
+            raise err
+        return res
+    Vector.__getitem__ = getitem
+
+    orig_set = Vector.__setitem__
+
+    def setitem(self, key, value):
+        global _depth
+        if _depth or not plain_vector(self):
+            return orig_set(self, key, value)
+        k = val = None
+        try:
+            before = list(self._underlying)
+            k = enc_key(key, len(before))
+            if type(value) in (list, tuple) or plain_vector(value):
+                val = ["seq", list(value)]
+            elif value is None or type(value) in (int, float, bool, str):
+                val = ["scalar", value]
+            if k is not None and val is not None and k[0] == "int" and val[0] == "seq":
+                val = None
+        except Exception:      # noqa: BLE001
+            k = None
+        _depth += 1
+        try:
+            orig_set(self, key, value)
+            err = None
+        except Exception as ex:      # noqa: BLE001
+            err = ex
+        finally:
+            _depth -= 1
+        if k is not None and val is not None and len(before) <= 60:
+            try:
+                after = list(self._underlying)
+                if temporal(before) or temporal(after):
+                    _emit({"op": "rsetitem", "skipped": "temporal values (promotion converts elements)"})
+                else:
+                    items = val[1] if val[0] == "seq" else [val[1]]
+                    (a_b, a_v, a_a), _ = _abs_equal_many([[before], [items], [after]])
+                    _emit({"op": "rsetitem", "n": len(before), "key": k, "before": a_b[0],
+                           "value": [val[0], a_v[0] if val[0] == "seq" else a_v[0][0]],
+                           "after": a_a[0], "ok": err is None, "errclass": type(err).__name__ if err else ""})
+            except TypeError:
+                _emit({"op": "rsetitem", "skipped": "unhashable values"})
+        if err is not None:
+            raise err
+    Vector.__setitem__ = setitem
+
     # ------------------------------------------------------------------ C03 monitor on every vector the tests build
     orig_init = Vector.__init__
 
